@@ -24,6 +24,7 @@ from cirq.ops import (
     common_gates,
     dense_pauli_string as dps,
     gate_operation,
+    global_phase_op,
     op_tree,
     pauli_gates,
     pauli_string as ps,
@@ -361,11 +362,14 @@ class PauliStringPhasorGate(raw_types.Gate):
         return self.dense_pauli_string.on(*qubits).to_z_basis_ops()
 
     def _decompose_(self, qubits: Sequence[cirq.Qid]) -> Iterator[cirq.OP_TREE]:
-        if len(self.dense_pauli_string) <= 0:
-            return
         # Only the qubits the Pauli string acts on non-trivially take part in the parity computation;
         # `qubits` may also list qubits on which the string is the identity.
-        acted_on = [q for q, p in zip(qubits, self.dense_pauli_string.pauli_mask) if p] or list(qubits)
+        acted_on = [q for q, p in zip(qubits, self.dense_pauli_string.pauli_mask) if p]
+        if not acted_on:
+            # The identity string has only the +1 eigenspace: the rotation is a global phase.
+            if self.exponent_pos:
+                yield global_phase_op.global_phase_operation(1j ** (2 * self.exponent_pos))
+            return
         any_qubit = acted_on[0]
         to_z_ops = op_tree.freeze_op_tree(self._to_z_basis_ops(qubits))
         xor_decomp = tuple(xor_nonlocal_decompose(acted_on, any_qubit))
